@@ -293,6 +293,8 @@ class Driver:
             TR.emit("sched_stop", reason=str(exc.args[0]) if exc.args else "", sync=instrument.sync_proj(schd))
             await schd.shutdown(exc)
             TR.emit("shutdown", reason=str(exc.args[0]) if exc.args else "")
+            if hasattr(self, "scheduler_stopped") and exc.args and str(exc.args[0]) != "AUTOMATIC":
+                self.scheduler_stopped(str(exc.args[0]))
             return str(exc.args[0]) if exc.args else "stop"
         TR.emit("loop_end", sync=instrument.sync_proj(schd), db=self.db_readback())
         if getattr(self, "pending_remove", None):
